@@ -109,7 +109,11 @@ def main():
             mod = importlib.import_module("vplib.rules." + pid.lower())
             note = "Not decided: " + "; ".join(getattr(mod, "NOT_DECIDED", [])) + \
                    ". Trusted base: rustc front end/MIR construction, daachorse, bincode derive, liblinear, csv, " \
-                   "unicode-segmentation, zstd, clap, tantivy, hashbrown, alloc/core. examples/ (wasm, embedded) cannot be built offline and are not analysed."
+                   "unicode-segmentation, zstd, clap, tantivy, hashbrown, alloc/core. examples/ (wasm, embedded) cannot be built offline and are not analysed. " \
+                   "The rule set also contains rules added after independently seeded changes were missed, and rules borrowed from related properties where they are " \
+                   "necessary conditions of this one (DESIGN.md §8.4-8.6 lists them with the change each one catches); helper functions introduced after the " \
+                   "confirmed tree are inlined, private renames are resolved and iterator pipelines desugared before the rules run (vplib/inline.py, desugar.py). " \
+                   "quick = workspace configuration (+ one alternative feature configuration where the anchors are cfg-gated); thorough = further feature configurations."
             checks.append({
                 "property_id": pid,
                 "quick_cmd": "./vcheck %s --tier quick" % pid,
